@@ -1067,6 +1067,29 @@ def arith_eval(t, env):
             return args[0] + args[1]
         if name in ("from", "into") and len(args) == 1:
             return args[0]
+        core_int = "core::num" in t[1] or "::num::" in t[1] or "cmp::" in t[1]
+        if core_int and len(args) == 2:
+            a, b = args
+            if name == "div_ceil" and b > 0:
+                return -(-a // b)
+            if name in ("saturating_sub",):
+                return max(a - b, 0)        # unsigned operands (the grids are non-negative)
+            if name in ("wrapping_sub", "checked_sub") and a >= b:
+                return a - b
+            if name in ("wrapping_mul", "saturating_mul", "checked_mul"):
+                return a * b
+            if name in ("checked_div", "wrapping_div") and b != 0:
+                return a // b
+            if name in ("checked_rem", "wrapping_rem", "rem_euclid") and b > 0:
+                return a % b
+            if name == "abs_diff":
+                return abs(a - b)
+            if name == "min":
+                return min(a, b)
+            if name == "max":
+                return max(a, b)
+            if name == "next_multiple_of" and b > 0:
+                return -(-a // b) * b
         raise NotArith("call " + t[1])
     if k == "vfield":
         return arith_eval(t[1], env)
